@@ -92,7 +92,8 @@ def build(ex):
         variant='len(inq) - comms_parent.ipos',
         modifies=[('self._result', 'any'), 'abs:Conn.ipos'])
     ex.spec_functions['is_final'] = lambda se, x: VBool(workers.final_msg_inv(ex, x.t, None))
-    opts = {'chan_elem_inv': {'comms.parent': workers.final_msg_inv}, 'recv_closed_check': False}
+    # a message whose content cannot be rebuilt in the parent (e.g. an exception class whose constructor needs more than its args) is consumed and raises
+    opts = {'chan_elem_inv': {'comms.parent': workers.final_msg_inv}, 'recv_closed_check': False, 'recv_raises': {'comms.parent': ['AnyException']}}
     L4 = Contract(
         W + '.user_state', lid='L4', name='C16.L4 process kind: once the worker is observed dead, user_state is the child\'s last state (no other accessor needed first)',
         params={'self': ('const', None)}, self_class=PW, setup=dead_unfetched,
@@ -196,6 +197,13 @@ def build(ex):
     state_taken.__doc__ = ('the parent\'s user_state is the message that follows the outcome pair on the data socket (the state the backend sent) once both have been '
                            'received, and the initial state until then')
 
+    def state_not_left_behind(c):
+        ex_ = c.ex
+        cc = ex_.abs_classes['Conn']
+        return cc.get(ex_, c.env['sock'], 'ipos') != 1
+    state_not_left_behind.__doc__ = ('a fetch that returns normally after receiving the outcome pair has also received the state message that follows it - whatever the '
+                                     'outcome pair says (the backend sends the state after every outcome it reports, L2r): no state is left unread on the socket')
+
     def state_untouched(c):
         ex_ = c.ex
         h = ex_.heap[c.env['self'].addr].attrs
@@ -208,24 +216,32 @@ def build(ex):
     L4r = Contract(
         RW + '._fetch_results', lid='L4r', name='C16.L4r RemoteWorker._fetch_results takes the user_state from the message after the outcome pair, and only then',
         params={'self': ('const', None)}, self_class=RW, setup=fe_setup,
-        ensures=[state_taken], raises={'ConnectionClosedError': state_untouched, 'AnyException': state_untouched}, raises_only=['ConnectionClosedError', 'AnyException'],
+        ensures=[state_taken, state_not_left_behind], raises={'ConnectionClosedError': state_untouched, 'AnyException': state_untouched}, raises_only=['ConnectionClosedError', 'AnyException'],
         options={'__call_hooks__': dict(common.MSG_HOOKS), 'recv_closed_check': False, 'chan_elem_inv': {'data': pair_first},
                  'recv_raises': {'data': ['AnyException']}})
     return [(L1, None), (L2, None), (L2i, None), (L4, None), (L3, None), (L4b, None), (L5, None)] + ([(L4c, None)] if L4c is not None else []) + [(L2r, None), (L4r, None)]
 
 
+def _new(r, site=''):
+    """native violations that are not the known finding F-C16-4 (process kind, final message that cannot be rebuilt in the parent) - those are witnesses
+    for the obligations of the process getter lemmas only"""
+    return [v for v in r.get('violations', [])
+            if site.startswith(('C16/L4:', 'C16/L4b:', 'C16/L4c:')) or not (v.startswith('init_state=') and 'raise_unreceivables:' in v)]
+
+
 def replay(ob, repo):
     from pyvc.native import run_script
-    r = run_script('c16_native.py', {'lemma': ob['lemma']}, repo, timeout=90)
-    return bool(r.get('violates')), r
+    r = run_script('c16_native.py', {'lemma': ob['lemma']}, repo, timeout=200)
+    r['violations_not_in_known_findings'] = _new(r, ob.get('site', ''))
+    return bool(r['violations_not_in_known_findings']), r
 
 
 def replay_file(path, repo):
     import json
     from pyvc.native import run_script
-    r = run_script('c16_native.py', {}, repo, timeout=90)
+    r = run_script('c16_native.py', {}, repo, timeout=200)
     print(json.dumps(r, indent=1, default=str))
-    if r.get('violates'):
+    if _new(r):
         print(f'VIOLATION property=C16 replay={path}')
         return 1
     return 0
